@@ -239,7 +239,7 @@ def program_st(draw, max_features=3, faults=True, cfg=None, peek=True, **kw):
             prog["hook_faults"] = [[draw(st.integers(0, 10000)), "skip"]]
         elif f == 0:
             prog["hook_faults"] = [[draw(st.integers(0, 10000)),
-                                    draw(st.sampled_from(["Exception", "AssertionError"]))]]
+                                    draw(st.sampled_from(["Exception", "AssertionError", "AssertionError0", "Exception0"]))]]
         elif f == 1:
             prog["cleanups"] = [{"at": draw(st.integers(0, 10000)), "raises": draw(st.booleans())}]
     return prog
